@@ -104,6 +104,58 @@ def run(ctx):
             d, sizes, stored, cfg, rec = ds[(kind, nm)]
             pos = stored[len(stored) // 2]
             one(kind, nm, "chunk", pos, s["sched"])
+        # ---- same-accessor sessions: a faulted fetch, then fault-free fetches of another
+        # chunk, of the info file and of the first chunk again through the SAME accessor
+        # object (a transient server fault must not poison the accessor's state)
+        # (faults on the two info requests of the accessor construction are left to the
+        # single-fetch cases: with an unreadable info the dispatcher legitimately falls
+        # back to the plain accessor, and that object is then simply the wrong one)
+        sess = [s for s in singles if s["kind"] in ("shard", "legacy")
+                and all(b == "Normal" for b in s["sched"][:2])]
+        for s in sess:
+            kind, nm = s["kind"], s["nminis"]
+            d, sizes, stored, cfg, rec = ds[(kind, nm)]
+            pa = stored[len(stored) // 2]
+            ida = sd.morton_ref(cfg["grid"], pa) >> cfg["pb"]
+            # second chunk: another minishard of the same dataset when there is one
+            others = [p for p in stored if p != pa]
+            mm, sm = (1 << cfg["mb"]) - 1, (1 << cfg["sb"]) - 1
+            hid = lambda p: sd.morton_ref(cfg["grid"], p) >> cfg["pb"]      # noqa: E731
+            diff = [p for p in others if (hid(p) ^ ida) & mm]
+            same_shard = [p for p in diff if ((hid(p) >> cfg["mb"]) & sm) == ((ida >> cfg["mb"]) & sm)]
+            pb = (same_shard or diff or others or [pa])[0]
+            ca, cb = sd.coords_of(pa, 4, sizes), sd.coords_of(pb, 4, sizes)
+            url = spell(ctx.rng, server, os_rel(work, d))
+            script = {i: b for i, b in enumerate(s["sched"]) if b != "Normal"}
+            steps = [("chunk", ca, script), ("chunk", cb, {}), ("info", None, {}), ("chunk", ca, {})]
+            outs = hd.http_session(server, url, steps)
+            for k, ((target, coords, script_k), (res, reqs, acc_class, info_faulted)) in enumerate(zip(steps, outs)):
+                loc = hd.local_read(d, target, coords)
+                cases.append({"kind": kind, "target": target, "nminis": nm if k == 0 else 0, "declared": True,
+                              "accClass": acc_class, "infoFaulted": info_faulted or k > 0,
+                              "reqs": [{"m": r["m"], "rng": r["rng"], "applied": r["applied"]} for r in reqs],
+                              "local": {"st": loc["st"], "data": loc["data"]}, "http": res,
+                              "meta": {"url": url.replace(str(server.port), "PORT"), "pos": list(coords or []),
+                                       "sched": s["sched"] if k == 0 else [], "cfg": cfg, "session_step": k,
+                                       "first_step_sched": s["sched"], "paths": [r["path"] for r in reqs]}})
+        # ---- persistent HTTP error statuses on every request ---------------------------
+        for kind, nm in (("plain", 1), ("shard", 2), ("legacy", 2)):
+            d, sizes, stored, cfg, rec = ds[(kind, nm)]
+            ca = sd.coords_of(stored[0], 4, sizes)
+            for code in (400, 401, 403, 404, 429, 500, 502, 503, 504):
+                for target, coords in (("chunk", ca), ("info", None)):
+                    url = spell(ctx.rng, server, os_rel(work, d))
+                    (res, reqs, acc_class, info_faulted), = hd.http_session(
+                        server, url, [(target, coords, {"all": "Status%d" % code})])
+                    loc = hd.local_read(d, target, coords)
+                    cases.append({"kind": kind, "target": target, "nminis": 0, "declared": kind != "plain",
+                                  "accClass": acc_class, "infoFaulted": True,
+                                  "reqs": [{"m": r["m"], "rng": r["rng"], "applied": r["applied"]} for r in reqs],
+                                  "local": {"st": "exc", "data": []},      # nothing is retrievable from this server
+                                  "http": res,
+                                  "meta": {"url": url.replace(str(server.port), "PORT"), "pos": list(coords or []),
+                                           "sched": ["all:Status%d" % code], "cfg": cfg,
+                                           "paths": [r["path"] for r in reqs]}})
         # ---- fault-free equivalence sweep over many datasets -----------------
         from . import c04
         nds = ctx.pick(40, 1200)
